@@ -4,6 +4,7 @@
 From Coq Require Extraction.
 From Coq Require Import ExtrOcamlBasic.
 From Utp Require Import Base.Prelude Wire.SeqNr Rtt.Rtte.
+From Utp Require Import Wire.Header.
 From Utp Require Import Rx.Rx Tx.Segments Tx.Ring.
 From Utp Require Import Cubic.F64 Cubic.Cubic Cubic.Libm.
 
@@ -16,4 +17,5 @@ Extraction "model"
   rx_build rx_trace rx_run c04_ok
   segments_new seg_trace seg_run
   tx_new tx_trace tx_run c19_ok
+  deserialize serialize msg_deserialize sack_new sack_deserialize c11_de_ok c11_msg_ok c11_ser_ok
   cubic_new cubic_trace c15_obs_ok c15_obs_core f64_view BETA_CUBIC C_CUBIC cbrt_cr.
